@@ -1,17 +1,10 @@
 (* Real-number lemmas for M_rodrigues.v (C10): the two Jacobians. *)
 From Coq Require Import ZArith Reals Lra Psatz List Bool Lia Nsatz.
 From PW Require Import Num NumR Vec Mat NpList Result.
-From PW.model Require Import M_rodrigues.
+From PW.model Require Import M_rodrigues M_rodrigues_spec.
 From PW.proofs Require Import P_vec P_mat P_rodrigues P_rodrigues_inv.
 Import ListNotations.
 Local Open Scope R_scope.
-
-(* (3,9) @ (9,3): the forward Jacobian (rows kept as 3x3 matrices) times the inverse Jacobian *)
-Definition jcol (i : nat) (ji : list (list R)) : list R := map (fun row => List.nth i row 0) ji.
-Definition jac_compose (jf : list (mat3 R)) (ji : list (list R)) : list (list R) :=
-  map (fun m => [ldot ROps (m3list m) (jcol 0 ji); ldot ROps (m3list m) (jcol 1 ji);
-                 ldot ROps (m3list m) (jcol 2 ji)]) jf.
-Definition I33 : list (list R) := [[1; 0; 0]; [0; 1; 0]; [0; 0; 1]].
 
 Ltac junf :=
   lazy [jac_compose jcol ldot lmatmul_cols lcols3 lcols4 lcols5 row_T33 rod_inv_jac_generic rod_inv_jac_identity zeros93
